@@ -27,9 +27,18 @@ def to_tsv(T):
 def to_ttl_iter(T, rnd):
     """the dialect of the streaming reader: whitespace-separated tokens, one statement group per subject run"""
     lines = ["@prefix ex: <%s> ." % M.EX, "@prefix xsd: <%s> ." % M.XSD, ""]
+    # a document may declare a base and write some IRIs relative to it; the declaration belongs to that document alone (the next
+    # file of a list, the next member of an archive starts without one).  Only documents whose IRIs are all http(s) do so: the
+    # reader resolves every other <...> against the base (documented divergence of C07, spec/TtlReader.tla "o.urn")
+    iris = [x[1] for t in T for x in (t[0], t[2]) if x[0] == "IRI"] + [t[1] for t in T]
+    use_base = bool(T) and all(u.startswith("http") for u in iris) and rnd.random() < .35
+    if use_base:
+        lines.insert(rnd.randint(0, 2), "@base <%s> ." % M.EX)
 
     def term(t):
         k, v = t
+        if k == "IRI" and use_base and v.startswith(M.EX) and len(v) > len(M.EX) and rnd.random() < .5:
+            return "<%s>" % v[len(M.EX):]
         if k == "IRI":
             return ("ex:" + v[len(M.EX):]) if (v.startswith(M.EX) and "/" not in v[len(M.EX):] and "#" not in v[len(M.EX):]
                                                 and ":" not in v[len(M.EX):] and rnd.random() < .6) else "<%s>" % v
